@@ -247,19 +247,22 @@ func c15PlanNew(p *Prog, r *Report) {
 	lbIndex := p.Field("proxycore", lb.Obj().Name(), "index")
 	var bad []string
 	seen := map[*types.Var]bool{}
-	eachInstr(fn, func(in ssa.Instruction) {
-		st, ok := in.(*ssa.Store)
-		if !ok {
-			return
+	// the plan literal, built here or in a constructor function that is handed the values
+	type fieldVal struct {
+		f   *types.Var
+		Val ssa.Value
+		at  token.Pos
+	}
+	var stores []fieldVal
+	for _, lit := range structLitsVia(p, fn, func(t types.Type) bool { return namedOf(t) == plan }) {
+		for _, f := range []*types.Var{hostsF, offsetF, indexF} {
+			if v, ok := lit[f.Name()]; ok && v != nil {
+				stores = append(stores, fieldVal{f, v, lit["\x00pos"].Pos()})
+			}
 		}
-		fa, ok := st.Addr.(*ssa.FieldAddr)
-		if !ok {
-			return
-		}
-		if a, ok := fa.X.(*ssa.Alloc); !ok || namedOf(a.Type()) != plan {
-			return
-		}
-		f := fieldOfAddr(fa)
+	}
+	for _, st := range stores {
+		f := st.f
 		seen[f] = true
 		switch f {
 		case hostsF:
@@ -296,7 +299,7 @@ func c15PlanNew(p *Prog, r *Report) {
 			}
 			okSrc = isPublished(st.Val, 2)
 			if !okSrc {
-				bad = append(bad, p.Pos(st.Pos())+": plan hosts are not a snapshot of the published slice")
+				bad = append(bad, p.Pos(st.at)+": plan hosts are not a snapshot of the published slice")
 			}
 		case offsetF:
 			okSrc := false
@@ -312,14 +315,14 @@ func c15PlanNew(p *Prog, r *Report) {
 				}
 			}
 			if !okSrc {
-				bad = append(bad, p.Pos(st.Pos())+": plan offset is not atomic.AddUint32(&index, 1) - 1 (consecutive plans would not start at consecutive hosts)")
+				bad = append(bad, p.Pos(st.at)+": plan offset is not atomic.AddUint32(&index, 1) - 1 (consecutive plans would not start at consecutive hosts)")
 			}
 		case indexF:
 			if c, ok := constInt(st.Val); !ok || c != 0 {
-				bad = append(bad, p.Pos(st.Pos())+": plan does not start at index 0")
+				bad = append(bad, p.Pos(st.at)+": plan does not start at index 0")
 			}
 		}
-	})
+	}
 	if !seen[hostsF] || !seen[offsetF] {
 		bad = append(bad, "plan literal does not initialise hosts and offset")
 	}
@@ -521,7 +524,7 @@ func c15Cow(p *Prog, r *Report, prefix string) {
 						continue
 					}
 					// `i >= 0` with i the result of a helper that searches the list for the host's key
-					if sc, isCall := bo.X.(*ssa.Call); isCall && sc.Call.StaticCallee() != nil && isKeySearch(p, sc.Call.StaticCallee()) {
+					if sc, isCall := bo.X.(*ssa.Call); isCall && sc.Call.StaticCallee() != nil && (isKeySearch(p, sc.Call.StaticCallee()) || isLibKeySearch(p, sc)) {
 						k, isK := constInt(bo.Y)
 						found := isK && ((bo.Op == token.GEQ && k == 0 && ct.Truth) || (bo.Op == token.LSS && k == 0 && !ct.Truth) ||
 							(bo.Op == token.NEQ && k == -1 && ct.Truth) || (bo.Op == token.EQL && k == -1 && !ct.Truth) || (bo.Op == token.GTR && k == -1 && ct.Truth))
@@ -776,4 +779,33 @@ func isKeySearch(p *Prog, fn *ssa.Function) bool {
 		}
 	})
 	return okAll && hits > 0
+}
+
+// isLibKeySearch: slices.IndexFunc(list, pred) where pred is a function literal (possibly made by
+// a small factory function) whose single return compares the Key() of its argument with the Key()
+// of another host.
+func isLibKeySearch(p *Prog, c *ssa.Call) bool {
+	callee := c.Call.StaticCallee()
+	if callee == nil || len(c.Call.Args) != 2 {
+		return false
+	}
+	o := callee
+	if og := callee.Origin(); og != nil {
+		o = og
+	}
+	if o.Pkg == nil || o.Pkg.Pkg.Path() != "slices" || o.Name() != "IndexFunc" {
+		return false
+	}
+	conds := predReturnConds(p, c.Call.Args[1])
+	if len(conds) != 1 || !conds[0].Truth {
+		return false
+	}
+	bo, ok := conds[0].Cond.(*ssa.BinOp)
+	if !ok || bo.Op != token.EQL {
+		return false
+	}
+	xc, xok := bo.X.(*ssa.Call)
+	yc, yok := bo.Y.(*ssa.Call)
+	return xok && yok && xc.Call.StaticCallee() != nil && yc.Call.StaticCallee() != nil &&
+		xc.Call.StaticCallee().Name() == "Key" && yc.Call.StaticCallee().Name() == "Key"
 }
